@@ -83,3 +83,10 @@ META = {
     "technique": "contract-based deductive verification: symbolic execution of the real function ASTs (pyvc) with regex facts from re._parser, "
                  "emission schemas, table obligations; bounded grammar-based fuzz as a labelled stand-in",
 }
+
+# debugging aid: C01_ONLY=<regex> restricts the run to the tasks whose name matches (never set by ./check itself)
+import os as _os
+import re as _re
+
+if _os.environ.get("C01_ONLY"):
+    TASKS = [t for t in TASKS if _re.search(_os.environ["C01_ONLY"], t.name)]
